@@ -10,7 +10,7 @@ ACTIONS = ("Validate", "AskMode", "AskOnb", "Echo", "Confirm", "GetPin", "GenSee
            "AskMode2", "GetNewPin", "SendNewPin", "ChangePin", "GetKeys", "WriteFiles")
 NEGATIVES = ("NeverOnboards", "NeverUnlocks", "NeverChanges", "NeverWritesKeys", "NeverAnyPin")
 TRACE_KEYS = ("id", "op", "plat", "any_pin", "no_unlock", "src", "pins", "upin", "outfile", "answers",
-              "d0", "acc", "prev_seed", "ev", "outcome", "files", "expect", "fin_pin")
+              "d0", "acc", "prev_seed", "ev", "outcome", "files", "expect", "fin_pin", "pre")
 
 
 def pin_label(p):
@@ -24,11 +24,11 @@ def pin_label(p):
 
 
 RELEVANT = {
-    "onboard": ("plat", "src", "any_pin", "outfile", "mode", "onb", "echo", "answers", "wipe"),
+    "onboard": ("plat", "src", "any_pin", "outfile", "pre", "mode", "onb", "echo", "answers", "wipe"),
     "unlock": ("plat", "src", "any_pin", "mode", "onb", "echo", "unlock"),
     "changepin": ("plat", "src", "any_pin", "no_unlock", "mode", "onb", "echo", "unlock", "newpin"),
-    "pubkeys": ("plat", "src", "any_pin", "no_unlock", "outfile", "mode", "onb", "echo", "unlock", "mode2",
-                "keys"),
+    "pubkeys": ("plat", "src", "any_pin", "no_unlock", "outfile", "pre", "mode", "onb", "echo", "unlock",
+                "mode2", "keys"),
     "genpin": (),
 }
 
@@ -96,7 +96,7 @@ def random_scenario(rng):
         newpin=rng.choice(["t", "t", "t", "f"]),
         mode2=rng.choice(["signer", "signer", "signer"] + list(admin_ops.MODES)),
         keys=rng.choice(["t", "t", "t", "f"]), rng=rng, strict=rng.random() < 0.4,
-        cli=rng.random() < 0.3,
+        cli=rng.random() < 0.3, pre=rng.choice(admin_ops.PRE_KINDS[op]),
         shapes=({"onb": rng.choice(admin_ops.ONB_SHAPES)} if rng.random() < 0.08 else None))
 
 
@@ -433,6 +433,11 @@ CORRUPTIONS = (
     ("a documented path never asked", "Carried", _pubkeys_ok,
      lambda t: _drop(t, lambda k, e: k == _idx(t, "get_pubkey")[4])),
     ("two keys swapped in the JSON file", "PubkeysWritten", _pubkeys_ok, _swap_json),
+    ("an entry from an earlier export left in the JSON file", "PubkeysWritten", _pubkeys_ok,
+     lambda t: t["files"]["json"].append(["m/44'/0'/0'/0/1", "04" + "11" * 64])),
+    ("success reported although the output path is a directory", "WriteError",
+     lambda t: t["op"] == "pubkeys" and t["outfile"] and t["pre"] in ("dir", "dirjson") and t["outcome"] == "err",
+     lambda t: t.update(outcome="ok")),
     ("uncompressed key in the text file", "PubkeysWritten", _pubkeys_ok,
      lambda t: t["files"]["txt"][0].__setitem__(1, t["files"]["json"][0][1])),
 )
